@@ -3,7 +3,7 @@ import collections, json, os, re, sys
 from vlib import core, cases, libs
 
 LEVEL = "proof"
-PROPS = ["MV/Props/C02.lean"]
+PROPS = ["MV/Props/C02.lean", "MV/Props/C02b.lean"]
 ASSUMPTIONS = [
     "PARTIAL: the theorems (inclusion_is_setop, inclusion_coboundary incl. uniqueness, ray_winding, inclusion_exclusion, volume_inclusion_exclusion, add/intersect_comm_solid, "
     "split_partition, split_disjoint, keepNew_is_jump, shadows_antisymm, abssum_law, abssum_scan_any_schedule) are about MV/Model/Bool3.lean: the inclusion arithmetic with the "
@@ -22,7 +22,50 @@ ASSUMPTIONS = [
     "'lattice-derived-operand' IF that key is listed, and recorded in the evidence; an unlisted single-Boolean failure, any general-position failure, or a failure rate of random "
     "lattice programs above 10x the recorded baseline is a violation. Deleting the class line from known_findings.txt gives the strict per-instance behaviour.",
 ]
+ASSUMPTIONS += [
+    "assembly (C02b): MV/Model/BoolAssembly.lean transliterates PairUp (incl. libstdc++'s std::__partition and the two stable_sorts), AddNewEdgeVerts, the per-edge bodies of "
+    "AppendPartialEdges/AppendNewEdges, DuplicateHalfedges, SizeOutput's counts and scans, the AbsSum vertex layout and Winding03_ (unite calls, flood fill). PROVED for all inputs "
+    "(MV/Props/C02b.lean): pairUp_pairs_all (for every std::partition meeting the standard's contract; stdPartition_meets_contract for the libstdc++ one), partialEdge_balance "
+    "(from the jump law keepNew_is_jump: IF w03 at the end vertex = w03 at the start vertex minus the crossing numbers THEN #starts = #ends), sizeOutput_matches_emitted and "
+    "emitted_any_schedule (cursors started at the exclusive scan of the per-face fetch counts: under EVERY order of the AtomicAdd fetches each fetch lands in its face's range, no slot "
+    "twice, none missing, cursors end at the next face), winding03_component_constant / winding03_true / whole_edge_same_inclusion (flood fill in any order). DECIDED PER RUN, not "
+    "proved: that SizeOutput's counts equal the number of fetches per face (the replay compares faceEdge/facePtrR face by face), that every vector is balanced on the real w03/x12 "
+    "(checked on every vector), that every face boundary is closed (checked per face), and the union-find's answers (checked by rootsOk against the model's own components; the "
+    "concurrent DisjointSets itself is C13's theorem)",
+    "assembly tie: the MANIFOLD_VERIF hook onBoolAsm (verif_hooks.h; boolean3.cpp Winding03_, boolean_result.cpp Result/AppendPartialEdges/AppendNewEdges/DuplicateHalfedges) dumps "
+    "the inputs and every intermediate; harness/c02_assembly.cpp replays each Boolean with <= 400 halfedges per operand through the Lean driver (engine boolasm): identical unite "
+    "calls, w03, faceEdge, facePQ2R, every vector<EdgePos> before PairUp, final facePtrR and faceHalfedges; edgePos doubles enter the model only as an order-preserving integer "
+    "(oracle); the real PairUp template is also called directly on seeded vectors with ties and duplicated vertices; serial library only (the parallel schedules of "
+    "DuplicateHalfedges are covered by the theorem, not by the replay)",
+]
 CLASS_KEY = "lattice-derived-operand"
+HA = os.path.join(core.ROOT, "harness", "c02_assembly.cpp")
+
+
+def assembly_part(ctx, quick, search=None):
+    """C02b: replay of the Boolean assembly (PairUp / Append* / SizeOutput / Winding03) + structural oracle + verified mesh checker"""
+    hooks = open(os.path.join(core.REPO, "src", "verif_hooks.h")).read()
+    if "onBoolAsm" not in hooks:
+        raise core.BuildBroken("src/verif_hooks.h has no onBoolAsm hook: apply patches/01-verif-hook-boolasm.diff (C02b) to the tree under test")
+    exe = core.compile_harness("c02_assembly", [HA], libs.cxx_flags("ser") + ["-ffp-contract=off"], libs=libs.link_flags("ser"))
+    cov = {}
+    cs1, st1 = cases.run_case_harness(ctx, exe, ["pairup", 1500 if quick else 20000])
+    c1 = cases.correspond(ctx, cs1, "PairUp (real template, libstdc++ partition + stable_sort) vs MV.BoolAsm.pairUp", search=search)
+    cs2, st2 = cases.run_case_harness(ctx, exe, ["bool", 140 if quick else 1500])
+    c2 = cases.correspond(ctx, cs2, "Boolean assembly (Winding03 unite calls and flood fill, SizeOutput, AddNewEdgeVerts, AppendPartialEdges, AppendNewEdges, AppendWholeEdges) vs "
+                          "MV.BoolAsm.assemble / winding03 / unitedEdges, and the result through the verified mesh checker", search=search)
+    kinds = collections.Counter(c["tag"].split()[1] for c in cs2 if len(c["tag"].split()) > 1)
+    fams = collections.Counter(c["tag"].split()[3].split(":")[0] for c in cs2 if len(c["tag"].split()) > 3 and c["tag"].split()[1] == "asm")
+    cov["assembly_evaluations"] = c1["evaluations"] + c2["evaluations"]
+    cov["assembly_distinct_nontrivial"] = int(st1.get("pairup_with_ties", 0)) + int(st2.get("booleans_with_intersections", 0))
+    cov["assembly_case_kinds"] = dict(kinds); cov["assembly_operand_families"] = dict(fams)
+    cov["assembly_stats"] = {k: int(v) for k, v in list(st1.items()) + list(st2.items()) if str(v).lstrip("-").isdigit()}
+    cov["assembly_samples"] = [{"case": core.clip(c["tag"], 160), "request": core.clip(c["req"], 200), "answer": core.clip(c["exp"], 200)} for c in cs2 if " asm " in c["tag"]][:2]
+    cov["assembly_rule"] = ("pairup: seeded vectors of <= 28 EdgePos with 1-3 distinct positions / 2-100 collision ids, duplicated-vertex groups, INT_MAX ids, +-0, shuffled, ~10% unbalanced or odd; "
+                            "nontrivial = has a tie in (edgePos, collisionId). bool: 40% general-position pairs of 6 families, 40% lattice boxes / lattice Boolean results in [0,3]^3, "
+                            "10% one self-overlapping two-component mesh (winding 2, multiplicity-2 vertices) against a small solid, 10% shifted copies; x 3 OpTypes; nontrivial = n12 + n21 > 0")
+    return cov, c1["evaluations"] + c2["evaluations"], cov["assembly_distinct_nontrivial"]
+
 H = os.path.join(core.ROOT, "harness", "c02_bool.cpp")
 GEN = os.path.join(core.LEAN, "MV", "Gen", "Inclusion.lean")
 
@@ -151,11 +194,11 @@ def run(ctx):
     pending, consts, cov = None, "", {}
     try:
         consts = translate(ctx)
-        cov = core.proof_gate(ctx.pid, PROPS, ["MV.Props.C02"] if ctx.tier == "thorough" else None)
+        cov = core.proof_gate(ctx.pid, PROPS, ["MV.Props.C02", "MV.Props.C02b"] if ctx.tier == "thorough" else None)
     except core.Violation as v:
         pending = v          # gate 1 broke: look for a concrete failing input before reporting (DESIGN section 3, "Search")
     cov["translator"] = "tools/extract_inclusion.py -> lean/MV/Gen/Inclusion.lean : " + consts
-    cov["checker_cmd"] = "python3 tools/extract_inclusion.py && cd lean && lake build MV mvdriver && lake env lean <#print axioms for every theorem of MV/Props/C02.lean>"
+    cov["checker_cmd"] = "python3 tools/extract_inclusion.py && cd lean && lake build MV mvdriver && lake env lean <#print axioms for every theorem of MV/Props/C02.lean and MV/Props/C02b.lean>"
     cov["trusted_base"] = core.TRUSTED_BASE + ["tools/extract_inclusion.py (regex reading of the three constants and the four inclusion formulas)",
                                                "the long-double oracles of harness/c02_bool.cpp (solid-angle winding, ray parity, point-triangle distance)"]
     libs.build("ser")
@@ -185,11 +228,14 @@ def run(ctx):
     cov.update(c2)
     cov["kernel_queries"] = int(st.get("kernel_queries", 0)); cov["kernel_operand_pairs"] = int(st.get("kernel_cases", 0)); cov["kernel12_nonzero_x12"] = int(st.get("x12_nonzero", 0))
     cov["samples"] = [{"case": core.clip(c["tag"], 120), "request": core.clip(c["req"], 200), "answer": core.clip(c["exp"], 160)} for c in cs if c["tag"].split()[1] in ("kernel", "intersect")][:3]
+    # (e) assembly of the result (C02b)
+    ca, n_asm, nt_asm = assembly_part(ctx, quick, search=search)
+    cov.update(ca)
     # (b), (c)
     c3, lat = property_parts(ctx, exe, sizes)
     cov.update(c3)
-    cov["evaluations"] = cov["evaluations"] + lat.n + cov["general_pairs"]
-    cov["distinct_nontrivial"] = cov["distinct_nontrivial"] + lat.n + cov["general_pairs_with_sample_points_in_both"]
+    cov["evaluations"] = cov["evaluations"] + lat.n + cov["general_pairs"] + n_asm
+    cov["distinct_nontrivial"] = cov["distinct_nontrivial"] + lat.n + cov["general_pairs_with_sample_points_in_both"] + nt_asm
     cov["rule"] = ("kernel tie: scalar vectors incl. ties, +-0, denormals, 1e+-300 (non-finite lambda) and operand pairs {lattice boxes touching/overlapping/identical, lattice Boolean results, "
                    "tetrahedra, spheres, generic rotated/scaled primitives, hulls, a drilled cube} x expandP in {0,1}: every candidate pair when the space is <= 1400, else box-overlapping pairs "
                    "sampled at 60% and others at 2%; distinct = distinct request lines. Lattice: every ordered pair of the 216 boxes of [0,3]^3 x 3 ops (both tiers), "
